@@ -15,6 +15,13 @@ import kazoo.exceptions
 from kazoo.protocol.states import ZnodeStat
 
 
+import kazoo.exceptions
+
+
+class TransientError(kazoo.exceptions.ConnectionClosedError):
+    """One write refused; the session survives (not among KazooRetry's retried exceptions)."""
+
+
 class Cut(BaseException):
     """The archiver was stopped before this write."""
 
@@ -75,17 +82,26 @@ class FakeZk:
         c.zxid, c.now_ms = self.zxid, self.now_ms
         return c
 
-    def arm(self, cut_after, budget=None):
+    def arm(self, cut_after, budget=None, transient=False):
         """Count writes from now; stop the client before write number cut_after+1; a run that
-        attempts more than `budget` writes is aborted with Runaway."""
+        attempts more than `budget` writes is aborted with Runaway.
+        `transient`: instead of dying, the client fails that ONE write with a (non-retried) kazoo
+        error and keeps working: the archiver stops because of the exception, but whatever its
+        `finally` / `except` blocks still write is applied."""
         self.writes = 0
         self.log = []
         self.cut_after = cut_after
         self.budget = budget
+        self.transient = transient
+        self.fired = False
 
     def _write(self, kind, path):
         if self.cut_after is not None and self.writes >= self.cut_after:
-            raise Cut('%s %s' % (kind, path))
+            if not getattr(self, 'transient', False):
+                raise Cut('%s %s' % (kind, path))
+            if not self.fired:
+                self.fired = True
+                raise TransientError('%s %s' % (kind, path))
         if self.budget is not None and self.writes >= self.budget:
             raise Runaway('%s %s' % (kind, path))
         self.writes += 1
